@@ -345,6 +345,7 @@ pub fn shard_c06_owned(seed: u64, shard: u32, cases: u32, exclude: &BTreeSet<Str
     let out = std::cell::RefCell::new(ShardOut::default());
     let failed = std::cell::Cell::new(false);
     let res = r.run(&owned_s(), |c| {
+        phase(&format!("C06 owned case {}", serde_json::to_string(&c).unwrap_or_default()));
         let rr = run_owned(&dir, &c, exclude);
         if !failed.get() {
             let mut o = out.borrow_mut();
@@ -686,6 +687,7 @@ pub fn shard_c06(tier: &str, seed: u64, shard: u32, cases: u32, exclude: &BTreeS
             *o.stats.entry("excluded_known".into()).or_insert(0) += 1;
         }
         o.evaluations += 1;
+        phase(&format!("C06 sampled history {}", serde_json::to_string(&p).unwrap_or_default()));
         *o.stats.entry("sampled_histories".into()).or_insert(0) += 1;
         match run_batch_history(&base.join("db"), &p) {
             Err(e) => {
@@ -975,6 +977,7 @@ pub fn shard_c14(tier: &str, seed: u64, shard: u32, cases: u32) -> ShardOut {
             seed: next(),
         };
         o.evaluations += 1;
+        phase(&format!("C14 history {}", serde_json::to_string(&p).unwrap_or_default()));
         let t0 = std::time::Instant::now();
         match run_lin_history(&base.join("db"), &p) {
             Err(e) => {
